@@ -29,7 +29,7 @@ import numpy as np
 
 from . import common
 from .common import Ctx, frac
-from .geo_common import disagree as gdisagree, violate as gviolate
+from .geo_common import disagree as gdisagree, violate as gviolate, leancheck, run_corpus
 from .geo_common import PI, as_shape, close, fbits, fline, floats, gen_lat, gen_lon, rats, rows_of, ulps, unit_dir
 
 HERE = Path(__file__).resolve().parent
@@ -59,6 +59,7 @@ def run(ctx: Ctx):
     np.seterr(all="ignore")
     ctx.extra["translated"] = translate()
     ctx.proof = common.prove("C05")
+    leancheck(ctx, "C05")
     ctx.rule = ("points: random directions x heights -100 km..100 km / 100 km..50 000 km, exact poles, near-axis points "
                 "(p = 1e-12..1e-9 m and both sides of the pole-branch threshold p² = a²·1e-32), equator (z = ±0), the "
                 "±180° meridian (y = ±0, x < 0), southern hemisphere; all registered ellipsoids incl. the sphere; shapes "
@@ -198,12 +199,20 @@ def check_conversions(ctx: Ctx):
     names = list(ellipsoid._ELLIPSOIDS)
     n_groups = ctx.budget(700, 30000)
     pending = []  # for the mpmath reference
-    for _ in range(n_groups):
-        ell = rng.choice(names)
-        E = ellipsoid.get(ell)
-        m = rng.choice([1, 1, 1, 2, 3, 6])
-        shape = rng.choice(["1d", "1xk"]) if m == 1 else "nxk"
-        pts = [gen_point(rng, E) for _ in range(m)]
+    corpus = []
+    run_corpus(ctx, "C05", lambda c: corpus.append(c) if c.get("kind") == "points" and c.get("ellipsoid") in names else None)
+    for gi in range(len(corpus) + n_groups):
+        if gi < len(corpus):
+            ell, shape = corpus[gi]["ellipsoid"], corpus[gi]["shape"]
+            E = ellipsoid.get(ell)
+            pts = [("corpus", list(map(float, p))) for p in corpus[gi]["xyz"]]
+            m = len(pts)
+        else:
+            ell = rng.choice(names)
+            E = ellipsoid.get(ell)
+            m = rng.choice([1, 1, 1, 2, 3, 6])
+            shape = rng.choice(["1d", "1xk"]) if m == 1 else "nxk"
+            pts = [gen_point(rng, E) for _ in range(m)]
         kinds = [k for k, _ in pts]
         xyz = [p for _, p in pts]
         case = {"fn": "trs2llh/llh2trs", "ellipsoid": ell, "shape": shape, "kinds": kinds, "xyz": xyz}
@@ -270,7 +279,14 @@ def check_conversions(ctx: Ctx):
         # same numbers whatever the shape
         if m == 1:
             for sh in ("1d", "1xk"):
-                other = np.asarray(T.trs2llh(as_shape(xyz, sh).copy(), E), dtype=float).reshape(-1, 3)[0]
+                inp = as_shape(xyz, sh).copy()
+                other_raw = np.asarray(T.trs2llh(inp, E), dtype=float)
+                if other_raw.shape != inp.shape:
+                    gviolate(ctx, "shape:trs2llh-result", f"trs2llh of a {inp.shape} array returned shape {other_raw.shape} (the same point was converted as {shape} before)", {**case, "as": sh})
+                back_raw2 = np.asarray(T.llh2trs(other_raw.reshape(inp.shape).copy(), E), dtype=float)
+                if back_raw2.shape != inp.shape:
+                    gviolate(ctx, "shape:llh2trs-result", f"llh2trs of a {inp.shape} array returned shape {back_raw2.shape}", {**case, "as": sh})
+                other = other_raw.reshape(-1, 3)[0]
                 if not (close(other[0], llh[0][0], ulp=4, abs_=1e-15) and close(other[1], llh[0][1], ulp=4, abs_=1e-15) and abs(other[2] - llh[0][2]) <= 4 * math.ulp(float(np.linalg.norm(xyz[0]))) + 1e-9):
                     gviolate(ctx, f"shape-consistency:trs2llh:{sh}", f"{ell}: trs2llh gives {other.tolist()} for shape {sh} but {llh[0].tolist()} for {shape}", {**case, "as": sh})
         # the other direction from generated geodetic coordinates
@@ -366,10 +382,14 @@ def make_obj(rng, cls, E, n):
     return PosVel(np.array(rows), "trs", ellipsoid=E)
 
 
-def apply_op(rng, op, obj, cls):
-    """returns (result, variant) — the real operation for one machine op"""
+def apply_op(rng, op, obj, cls, force=None):
+    """returns (result, variant) — the real operation for one machine op (`force`: the variant of a stored replay)"""
     Position, PositionDelta, PosVel, PosVelDelta, PositionArray, PosVelArray, ellipsoid, T = _imp()
     two_d = obj.ndim == 2
+
+    def pick(options):
+        return force if force in options else rng.choice(options)
+
     if op == "convert":
         if cls == "position":
             target = "llh" if obj.system == "trs" else "trs"
@@ -379,15 +399,14 @@ def apply_op(rng, op, obj, cls):
     if op == "sliceRow":
         if not two_d or len(obj) < 2:
             return obj.view(), "view(1d)"
-        if rng.random() < 0.5:
-            return obj[0:len(obj)], "p[a:b]"
-        if rng.random() < 0.5:
-            return obj[1:], "p[1:]"
-        return obj[np.int_(0)] if rng.random() < 0.3 else obj[0], "p[i]"
+        v = pick(["p[a:b]", "p[a:b]", "p[1:]", "p[i]", "p[np.int_]"])
+        if v == "p[a:b]":
+            return obj[0:len(obj)], v
+        if v == "p[1:]":
+            return obj[1:], v
+        return (obj[np.int_(0)] if v == "p[np.int_]" else obj[0]), v
     if op == "fancy":
-        v = rng.choice(["view", "copy", "copy.copy", "list", "mask", "add0"])
-        if v == "view":
-            return obj.view(), v
+        v = pick(["view", "copy", "copy.copy", "list", "mask"])
         if v == "copy":
             return obj.copy(), v
         if v == "copy.copy":
@@ -400,12 +419,13 @@ def apply_op(rng, op, obj, cls):
     if op == "subset":
         if not two_d:
             return obj.subset(Ellipsis, {}), "subset(...)"
-        idx = rng.choice([list(range(len(obj))), np.ones(len(obj), dtype=bool), slice(None)])
-        return obj.subset(idx, {}), "subset"
+        v = pick(["subset(list)", "subset(mask)", "subset(slice)"])
+        idx = {"subset(list)": list(range(len(obj))), "subset(mask)": np.ones(len(obj), dtype=bool), "subset(slice)": slice(None)}[v]
+        return obj.subset(idx, {}), v
     if op == "addDelta":
         D = PositionDelta if cls == "position" else PosVelDelta
         delta = D(np.zeros(obj.shape), obj.system, ref_pos=obj)
-        v = rng.choice(["p+d", "p-d", "d+p"])
+        v = pick(["p+d", "p-d", "d+p"])
         if v == "p+d":
             return obj + delta, v
         if v == "p-d":
@@ -420,20 +440,91 @@ def apply_op(rng, op, obj, cls):
     if op == "insert":
         if not two_d:
             return obj.view(), "view(1d)"
-        other = type(obj)(np.asarray(obj)[0:1].copy(), obj.ellipsoid) if False else obj[0:1]
         import contextlib
         import io
 
         with contextlib.redirect_stdout(io.StringIO()):
-            return type(obj).insert(obj, 0, other, {}), "insert"
+            return type(obj).insert(obj, 0, obj[0:1], {}), "insert"
     raise AssertionError(op)
 
 
-def machine_op(op, variant):
+def machine_op(op, variant, ctor_kinds=()):
     """the machine operation that stands for what was really done"""
     if variant in ("view(1d)", "view"):
         return "fancy"
+    # list / boolean-mask indices are rebuilt by the constructor call of __getitem__ when its isinstance guard admits
+    # them (regenerated table), otherwise they come out of __array_finalize__
+    if variant == "list" and ("*" in ctor_kinds or "list" in ctor_kinds):
+        return "sliceRow"
+    if variant == "mask" and ("*" in ctor_kinds or "np.ndarray" in ctor_kinds):
+        return "sliceRow"
     return op
+
+
+def run_sequence(ctx, rng, cls0, ell, ops, ctor_kinds, forced=None, nrows=None, first_row=None):
+    """one operation sequence on a real object: oracle at every step, then the machine's prediction"""
+    Position, PositionDelta, PosVel, PosVelDelta, PositionArray, PosVelArray, ellipsoid, T = _imp()
+    drv = ctx.driver
+    E0 = ellipsoid.get(ell)
+    nrows = nrows or rng.choice([1, 2, 3])
+    obj = make_obj(rng, cls0, E0, nrows)
+    if (rng.random() < 0.2) if first_row is None else first_row:
+        obj = obj[0] if nrows > 1 else obj
+    case = {"fn": "ellipsoid flow", "class": cls0, "ellipsoid": ell, "ops": ops, "rows": nrows, "ndim": int(obj.ndim)}
+    forced = list(forced or [])
+    cls = cls0
+    done, variants = [], []
+    failed = False
+    for op in ops:
+        if op == "posOf" and (cls == "position" or obj.system != "trs"):
+            continue  # `.pos` exists for Cartesian PosVel objects only
+        if op == "addDelta" and obj.system != "trs":
+            continue  # no llh / kepler difference systems are registered
+        if not hasattr(getattr(obj, "ellipsoid", None), "e2") and op == "convert":
+            continue  # already reported at the operation that lost the ellipsoid
+        try:
+            before_vals = np.asarray(obj, dtype=float).copy()
+            before_sys = obj.system
+            res, variant = apply_op(rng, op, obj, cls, forced.pop(0) if forced else None)
+        except Exception as e:
+            gviolate(ctx, f"raises:flow:{op}:{type(e).__name__}", f"{op} on a {cls} created on {ell} raised {type(e).__name__}: {e}", {**case, "done": done, "variants": variants, "op": op})
+            failed = True
+            break
+        mop = machine_op(op, variant, ctor_kinds)
+        done.append(mop)
+        variants.append(variant)
+        got = getattr(res, "ellipsoid", None)
+        got_name = getattr(got, "name", repr(type(got).__name__))
+        prev = getattr(obj, "ellipsoid", None)
+        # ---- oracle: the property itself — the operation hands on the ellipsoid of the object it was applied to
+        if got is not prev and got != prev:
+            gviolate(ctx, f"ellipsoid-lost:{cls}:{op}", f"a {cls} on {getattr(prev, 'name', '?')} (created on {ell}) is on {got_name} after {variant}; history {variants}", {**case, "done": list(done), "variants": list(variants)})
+        if op == "convert" and cls == "position" and not np.isnan(before_vals).any() and prev == E0:
+            f = T.trs2llh if before_sys == "trs" else T.llh2trs
+            want = np.asarray(f(before_vals, E0), dtype=float).reshape(np.asarray(res).shape)
+            if not np.allclose(np.asarray(res, dtype=float), want, rtol=0, atol=1e-9, equal_nan=True):
+                gviolate(ctx, "convert-evaluated-on-other-ellipsoid", f"conversion {variant} of a position created on {ell} after {variants[:-1]} is not the conversion on {ell} (off by {float(np.nanmax(np.abs(np.asarray(res) - want))):.3e})", {**case, "done": list(done), "variants": list(variants)})
+        if op == "posOf":
+            cls = "position"
+        obj = res
+        if not hasattr(obj, "system"):
+            break
+    if not done:
+        return
+    ctx.case({**case, "done": done, "variants": variants}, nontrivial=any(o in CTOR_OPS for o in done))
+    for o in done:
+        ctx.count(f"flow:{o}")
+    ctx.count(f"flow:len={len(done)}")
+    if failed:
+        return
+    # ---- correspondence: the machine over the regenerated table predicts the tag of the real object
+    ans = drv.ask1(f"c05 flow {cls0} {ell} {','.join(done)}")
+    toks = ans.split()
+    got = getattr(obj, "ellipsoid", None)
+    got_name = got.name if hasattr(got, "name") else "?"
+    impl = f"{cls} {got_name}"
+    if " ".join(toks[:2]) != impl:
+        gdisagree(ctx, "ellipsoid flow machine over the regenerated constructor-call table", {**case, "done": done, "variants": variants}, ans, impl)
 
 
 def check_flow(ctx: Ctx):
@@ -441,8 +532,11 @@ def check_flow(ctx: Ctx):
     drv, rng = ctx.driver, ctx.rng
     names = list(ellipsoid._ELLIPSOIDS)
     n = ctx.budget(400, 15000)
+    ctor_kinds = tuple(drv.ask1("c05 getitemkinds").split(","))
     # every single operation on every ellipsoid first (the boundary set), then random sequences
-    seqs = [(cls, ell, [op]) for cls in ("position", "posvel") for ell in names for op in OPS if not (op == "posOf" and cls == "position")]
+    seqs = []
+    run_corpus(ctx, "C05", lambda c: seqs.append((c["class"], c["ellipsoid"], list(c["ops"]))) if c.get("kind") == "flow" and c.get("ellipsoid") in names else None)
+    seqs += [(cls, ell, [op]) for cls in ("position", "posvel") for ell in names for op in OPS if not (op == "posOf" and cls == "position")]
     for _ in range(n):
         cls = rng.choice(["position", "posvel"])
         ops = [rng.choice(OPS) for _ in range(rng.randint(1, 6))]
@@ -450,65 +544,7 @@ def check_flow(ctx: Ctx):
             ops = [o for o in ops if o != "posOf"] or ["convert"]
         seqs.append((cls, rng.choice(names), ops))
     for cls0, ell, ops in seqs:
-        E0 = ellipsoid.get(ell)
-        nrows = rng.choice([1, 2, 3])
-        obj = make_obj(rng, cls0, E0, nrows)
-        if rng.random() < 0.2:
-            obj = obj[0] if nrows > 1 else obj
-        case = {"fn": "ellipsoid flow", "class": cls0, "ellipsoid": ell, "ops": ops, "rows": nrows, "ndim": int(obj.ndim)}
-        cls = cls0
-        done, variants = [], []
-        failed = False
-        for op in ops:
-            if op == "posOf" and (cls == "position" or obj.system != "trs"):
-                continue  # `.pos` exists for Cartesian PosVel objects only
-            if op == "addDelta" and obj.system != "trs":
-                continue  # no llh / kepler difference systems are registered
-            if not hasattr(getattr(obj, "ellipsoid", None), "e2") and op == "convert":
-                continue  # already reported at the operation that lost the ellipsoid
-            try:
-                before_vals = np.asarray(obj, dtype=float).copy()
-                before_sys = obj.system
-                res, variant = apply_op(rng, op, obj, cls)
-            except Exception as e:
-                gviolate(ctx, f"raises:flow:{op}:{type(e).__name__}", f"{op} on a {cls} created on {ell} raised {type(e).__name__}: {e}", {**case, "done": done, "variants": variants, "op": op})
-                failed = True
-                break
-            mop = machine_op(op, variant)
-            done.append(mop)
-            variants.append(variant)
-            got = getattr(res, "ellipsoid", None)
-            got_name = getattr(got, "name", repr(type(got).__name__))
-            prev = getattr(obj, "ellipsoid", None)
-            # ---- oracle: the property itself — the operation hands on the ellipsoid of the object it was applied to
-            if got is not prev and got != prev:
-                gviolate(ctx, f"ellipsoid-lost:{cls}:{op}", f"a {cls} on {getattr(prev, 'name', '?')} (created on {ell}) is on {got_name} after {variant}; history {variants}", {**case, "done": list(done), "variants": list(variants)})
-            if op == "convert" and cls == "position" and not np.isnan(before_vals).any() and prev == E0:
-                f = T.trs2llh if before_sys == "trs" else T.llh2trs
-                want = np.asarray(f(before_vals, E0), dtype=float).reshape(np.asarray(res).shape)
-                if not np.allclose(np.asarray(res, dtype=float), want, rtol=0, atol=1e-9, equal_nan=True):
-                    gviolate(ctx, "convert-evaluated-on-other-ellipsoid", f"conversion {variant} of a position created on {ell} after {variants[:-1]} is not the conversion on {ell} (off by {float(np.nanmax(np.abs(np.asarray(res) - want))):.3e})", {**case, "done": list(done), "variants": list(variants)})
-            if op == "posOf":
-                cls = "position"
-            obj = res
-            if not hasattr(obj, "system"):
-                break
-        if not done:
-            continue
-        ctx.case({**case, "done": done, "variants": variants}, nontrivial=any(o in CTOR_OPS for o in done))
-        for o in done:
-            ctx.count(f"flow:{o}")
-        ctx.count(f"flow:len={len(done)}")
-        if failed:
-            continue
-        # ---- correspondence: the machine over the regenerated table predicts the tag of the real object
-        ans = drv.ask1(f"c05 flow {cls0} {ell} {','.join(done)}")
-        toks = ans.split()
-        got = getattr(obj, "ellipsoid", None)
-        got_name = got.name if hasattr(got, "name") else "?"
-        impl = f"{cls} {got_name}"
-        if " ".join(toks[:2]) != impl:
-            gdisagree(ctx, "ellipsoid flow machine over the regenerated constructor-call table", {**case, "done": done, "variants": variants}, ans, impl)
+        run_sequence(ctx, rng, cls0, ell, ops, ctor_kinds)
     # end to end: a round trip on a non-default ellipsoid
     for ell in names:
         E0 = ellipsoid.get(ell)
@@ -530,8 +566,40 @@ def check_flow(ctx: Ctx):
 
 
 def replay(payload):
+    """re-run the oracle on a stored case against $MIDGARD_REPO; exit code 1 when the violation reproduces"""
+    import random
+
+    warnings.simplefilter("ignore")
+    np.seterr(all="ignore")
     c = payload.get("replay", payload)
-    print(json.dumps(c, indent=1, default=str)[:3000])
+    print(json.dumps(c, indent=1, default=str)[:2500])
     print("key:", payload.get("key"), "| what:", payload.get("what"))
-    print("re-run `VERIF_SEED=%s ./check C05 --tier %s` to reproduce" % (payload.get("seed", 0), payload.get("tier", "quick")))
-    return 0
+    ctx = Ctx("C05", "quick", int(payload.get("seed", 0) or 0))
+    rng = random.Random(0)
+    *_, ellipsoid, T = _imp()
+    fn = c.get("fn")
+    if fn == "ellipsoid flow" and c.get("ellipsoid") in ellipsoid._ELLIPSOIDS:
+        kinds = tuple(ctx.driver.ask1("c05 getitemkinds").split(","))
+        # the stored machine ops are re-applied with the stored variants on a fresh object of the same class / ellipsoid
+        ops = [("fancy" if v in ("view", "view(1d)", "copy", "copy.copy", "list", "mask") else o) for o, v in zip(c.get("done", c["ops"]), c.get("variants", []))] or c["ops"]
+        run_sequence(ctx, rng, c["class"], c["ellipsoid"], ops, kinds, forced=c.get("variants"), nrows=c.get("rows"), first_row=(c.get("ndim") == 1 and c.get("rows", 1) > 1))
+    elif fn == "trs2llh/llh2trs" and c.get("ellipsoid") in ellipsoid._ELLIPSOIDS:
+        E = ellipsoid.get(c["ellipsoid"])
+        arr = as_shape(c["xyz"], c["shape"])
+        llh = np.asarray(T.trs2llh(arr.copy(), E), dtype=float)
+        back = np.asarray(T.llh2trs(llh.reshape(arr.shape), E), dtype=float)
+        print("trs2llh:", llh.tolist(), "\nback - input:", (back.reshape(-1, 3) - arr.reshape(-1, 3)).tolist())
+        pend = [(c["ellipsoid"], k, p, g, c) for k, p, g in zip(c["kinds"], c["xyz"], llh.reshape(-1, 3).tolist())]
+        measure_accuracy(ctx, pend)
+        print("measured (m):", ctx.extra.get("measured_accuracy_m"))
+    else:
+        print("no dedicated replay for this kind of case: re-run `VERIF_SEED=%s ./check C05 --tier %s`" % (payload.get("seed", 0), payload.get("tier", "quick")))
+        return 0
+    known = {k for k, _ in common.load_known("C05")[0]}
+    hits = [v for v in ctx.violations if v.key not in known]
+    for v in ctx.violations:
+        print(("KNOWN-FINDING " if v.key in known else "VIOLATION ") + v.key + ": " + v.what)
+    print("verdict:", "violation reproduced" if hits else "no violation on this tree")
+    if ctx._driver:
+        ctx._driver.close()
+    return 1 if hits else 0
